@@ -134,14 +134,23 @@ def histories(M, rec, rng, reps):
                 net.add_node(op[1])
             elif kind == "add_nodes":
                 op = ("add_nodes", rng.sample(N, rng.randint(0, len(N))))
-                net.add_nodes(list(op[1]) if rng.random() < 0.5 else tuple(op[1]))
+                form = rng.choice(("list", "tuple", "iter", "gen"))
+                rec.seen("bulk_argument_forms", ("add_nodes", form))
+                net.add_nodes({"list": list(op[1]), "tuple": tuple(op[1]), "iter": iter(list(op[1])),
+                               "gen": (x for x in op[1])}[form])
             elif kind == "add_link":
                 op = ("add_link", rng.choice(N), rng.choice(L), rng.choice(N))
                 net.add_link(op[1], op[2], op[3])
             elif kind == "add_links":
                 trip = [(rng.choice(N), rng.choice(L), rng.choice(N)) for _t in range(rng.randint(0, 3))]
                 op = ("add_links", trip)
-                net.add_links(list(trip))
+                form = rng.choice(("list", "tuple", "iter", "gen", "zip"))
+                rec.seen("bulk_argument_forms", ("add_links", form))
+                if form == "zip":
+                    arg = zip([t[0] for t in trip], [t[1] for t in trip], [t[2] for t in trip])
+                else:
+                    arg = {"list": list(trip), "tuple": tuple(trip), "iter": iter(list(trip)), "gen": (t for t in trip)}[form]
+                net.add_links(arg)
             elif kind == "add_origin":
                 op = ("add_origin", rng.choice(O), rng.choice(N))
                 net.add_origin(op[1], op[2])
@@ -159,8 +168,10 @@ def histories(M, rec, rng, reps):
             st = netmon.model_apply(st, op)
             rec.count("history_calls")
             rec.seen("history_op_kinds", op[0])
-            netmon.compare_state(rec, PROP, netmon.graph_state(net), st, op)
+            ok = netmon.compare_state(rec, PROP, netmon.graph_state(net), st, op)
             all_nodes_are_nodes(M, net, rec, op[0])
+            if not ok:
+                break  # later calls would only repeat the divergence under another name
         rec.count("histories")
         if rec.counters["histories"] == 2:
             rec.sample({"history": hist})
